@@ -62,6 +62,9 @@ theorem nettle_same_decode_table : Gen.Base64.nettleDecodeTable = Gen.Base64.dec
 theorem nettle_same_alphabet : Gen.Base64.nettleEncodeTable = Gen.Base64.encodeTable := by decide +kernel
 theorem nettle_same_macros : Gen.Base64.nettleMacrosAgree = true := by decide
 
+theorem local_lim : Gen.Base64.localPadLimit = 2 := by decide
+theorem nettle_lim : Gen.Base64.nettlePadLimit = 3 := by decide
+
 theorem decodeLength_eq (n : Nat) : decodeLength n = ((n + 1) * 6) / 8 := by
   simp [decodeLength, Gen.Base64.decLenAdd, Gen.Base64.decLenMul, Gen.Base64.decLenDiv]
 theorem encodeLength_eq (n : Nat) : encodeLength n = (n * 8 + 4) / 6 := by
